@@ -15,13 +15,13 @@ import (
 // Shared anchors and rules on bus/net/endpoint.go (C10, C11, C12, C17).
 
 type epAnchors struct {
-	handlers, stream, mutex      *types.Var // endPoint fields
-	hFilter, hConsumer, hCloser  *types.Var // Handler fields
-	hCloseWith, epCloseWith      *ssa.Function
-	removeHandler, makeHandler   *ssa.Function
+	handlers, stream, mutex       *types.Var // endPoint fields
+	hFilter, hConsumer, hCloser   *types.Var // Handler fields
+	hCloseWith, epCloseWith       *ssa.Function
+	removeHandler, makeHandler    *ssa.Function
 	addHandler, dispatch, process *ssa.Function
-	send, newHandler             *ssa.Function
-	class                        core.LockClass
+	send, newHandler              *ssa.Function
+	class                         core.LockClass
 }
 
 func getEP(c *core.Ctx, rule string) *epAnchors {
@@ -423,11 +423,7 @@ func ruleSlotFill(c *core.Ctx, a *epAnchors, lc *core.LockCache, rule string) {
 				continue
 			}
 			ia := st.Addr.(*ssa.IndexAddr)
-			isSlot := func(v ssa.Value) bool {
-				i2, ok := a.slotLoadIndex(v)
-				return ok && core.SameValue(i2, ia.Index)
-			}
-			if !core.Guarded(fn, st, core.Eq(isSlot, core.IsNilConst)) && !a.indexFromFreeSlotHelper(c, ia.Index) {
+			if !core.Guarded(fn, st, a.freeSlotMatcher(ia.Index)) && !a.indexFromFreeSlotHelper(c, fn, st, ia.Index) {
 				c.Fail(rule, key, st.Pos(), "MakeHandler overwrites a slot that was not tested to be nil: a live handler is dropped without being closed, or its id is reused before removal")
 				continue
 			}
@@ -701,6 +697,9 @@ func funcValueCtx(v ssa.Value) (*ssa.Function, map[*ssa.Parameter]ssa.Value, boo
 	switch x := v.(type) {
 	case *ssa.MakeClosure:
 		f, _ := x.Fn.(*ssa.Function)
+		if m, sub, ok := boundMethod(x); ok {
+			return m, sub, true
+		}
 		return f, nil, f != nil
 	case *ssa.Function:
 		return x, nil, true
@@ -738,18 +737,113 @@ func funcValueCtx(v ssa.Value) (*ssa.Function, map[*ssa.Parameter]ssa.Value, boo
 	return nil, nil, false
 }
 
+// boundMethod: a method value of a struct built on the spot
+// (callTarget{service, object, action, id}.matchReply): the method itself, with
+// the fields of its receiver mapped to the values the struct was built from.
+func boundMethod(mc *ssa.MakeClosure) (*ssa.Function, map[*ssa.Parameter]ssa.Value, bool) {
+	w, _ := mc.Fn.(*ssa.Function)
+	if w == nil || !strings.HasSuffix(w.Name(), "$bound") || len(mc.Bindings) != 1 || len(w.Blocks) != 1 {
+		return nil, nil, false
+	}
+	var m *ssa.Function
+	for _, call := range core.Calls(w) {
+		if f := core.StaticCallee(call); f != nil && f.Signature.Recv() != nil {
+			m = f
+		}
+	}
+	if m == nil || !inRepo(m) || len(m.Params) == 0 || len(m.Blocks) == 0 {
+		return nil, nil, false
+	}
+	var al *ssa.Alloc
+	switch b := mc.Bindings[0].(type) {
+	case *ssa.Alloc:
+		al = b
+	case *ssa.UnOp:
+		if b.Op == token.MUL {
+			al, _ = b.X.(*ssa.Alloc)
+		}
+	}
+	subst := map[*ssa.Parameter]ssa.Value{}
+	if al == nil {
+		return m, subst, true
+	}
+	for _, r := range core.Referrers(al) {
+		fa, ok := r.(*ssa.FieldAddr)
+		if !ok {
+			continue
+		}
+		var vals []ssa.Value
+		for _, u := range core.Referrers(fa) {
+			if st, ok := u.(*ssa.Store); ok && st.Addr == ssa.Value(fa) {
+				vals = append(vals, st.Val)
+			}
+		}
+		if len(vals) == 1 {
+			subst[recvFieldKey(m.Params[0], fa.Field)] = vals[0]
+		}
+	}
+	return m, subst, true
+}
+
+var recvFieldKeys = map[*ssa.Parameter]map[int]*ssa.Parameter{}
+
+// recvFieldKey: the key under which a substitution records the value of field
+// i of receiver p (a placeholder that is only ever used as a map key).
+func recvFieldKey(p *ssa.Parameter, i int) *ssa.Parameter {
+	if recvFieldKeys[p] == nil {
+		recvFieldKeys[p] = map[int]*ssa.Parameter{}
+	}
+	if recvFieldKeys[p][i] == nil {
+		recvFieldKeys[p][i] = new(ssa.Parameter)
+	}
+	return recvFieldKeys[p][i]
+}
+
+// substValue resolves v through a substitution: a parameter of the factory, or
+// a field of the receiver of a bound method.
+func substValue(subst map[*ssa.Parameter]ssa.Value, v ssa.Value) ssa.Value {
+	w := core.Canon(v)
+	if p, ok := w.(*ssa.Parameter); ok {
+		if a, ok := subst[p]; ok {
+			return core.Canon(a)
+		}
+		return w
+	}
+	var recv ssa.Value
+	field := -1
+	switch x := core.StripConv(v).(type) {
+	case *ssa.Field:
+		recv, field = x.X, x.Field
+	case *ssa.UnOp:
+		if fa, ok := x.X.(*ssa.FieldAddr); ok && x.Op == token.MUL {
+			recv, field = fa.X, fa.Field
+			// a value receiver spilled into a local
+			if al, ok := recv.(*ssa.Alloc); ok {
+				for _, r := range core.Referrers(al) {
+					if st, ok := r.(*ssa.Store); ok && st.Addr == ssa.Value(al) {
+						recv = st.Val
+					}
+				}
+			}
+		}
+	}
+	if p, ok := recv.(*ssa.Parameter); ok && field >= 0 {
+		if keys := recvFieldKeys[p]; keys != nil && keys[field] != nil {
+			if a, ok := subst[keys[field]]; ok {
+				return core.Canon(a)
+			}
+		}
+	}
+	return w
+}
+
 // apiParam matches the k-th uint32 parameter of the API method api (service,
 // object, action in that order for client.Call and client.Subscribe), as seen
 // from a callback: directly captured, or captured by a factory whose
 // parameters subst maps to the arguments api passed.
 func apiParam(api *ssa.Function, k int, subst map[*ssa.Parameter]ssa.Value) func(ssa.Value) bool {
 	return func(v ssa.Value) bool {
-		w := core.Canon(v)
-		if p, ok := w.(*ssa.Parameter); ok {
-			if a, ok := subst[p]; ok {
-				w = core.Canon(a)
-			}
-		}
+		w := substValue(subst, v)
 		p, ok := w.(*ssa.Parameter)
 		if !ok || p.Parent() != api {
 			return false
@@ -1030,10 +1124,99 @@ func unlockBetween(fn *ssa.Function, a, b ssa.Instruction, class core.LockClass)
 	return false
 }
 
+// freeSlotMatcher: the edges on which the slot idx is known to hold no live
+// handler: handlers[idx] == nil (idx itself, or the value a search variable
+// that starts at a sentinel was given), or idx >= len(handlers) (beyond the
+// table: whatever is stored there after growing it replaces nothing).
+func (a *epAnchors) freeSlotMatcher(idx ssa.Value) core.EdgeMatcher {
+	cands := append([]ssa.Value{idx}, phiLeaves(idx)...)
+	isIdx := func(v ssa.Value) bool {
+		for _, cv := range cands {
+			if core.SameValue(v, cv) {
+				return true
+			}
+		}
+		return false
+	}
+	isSlot := func(v ssa.Value) bool {
+		i2, ok := a.slotLoadIndex(v)
+		return ok && isIdx(i2)
+	}
+	isLen := func(v ssa.Value) bool {
+		call, ok := core.Canon(v).(*ssa.Call)
+		if !ok {
+			return false
+		}
+		bi, ok := call.Call.Value.(*ssa.Builtin)
+		return ok && bi.Name() == "len" && isFieldOf(call.Call.Args[0], a.handlers)
+	}
+	beyond := func(cm core.Cmp) (bool, bool) {
+		if isIdx(cm.X) && isLen(cm.Y) {
+			switch cm.Op {
+			case token.GEQ, token.EQL: // idx >= len, idx == len
+				return true, false
+			case token.LSS: // !(idx < len)
+				return false, true
+			}
+		}
+		if isLen(cm.X) && isIdx(cm.Y) {
+			switch cm.Op {
+			case token.LEQ, token.EQL:
+				return true, false
+			case token.GTR:
+				return false, true
+			}
+		}
+		return false, false
+	}
+	return core.AnyOf(core.Eq(isSlot, core.IsNilConst), beyond)
+}
+
+// phiLeaves: the values other than the sentinel (a negative constant, false) a
+// search variable can take.
+func phiLeaves(v ssa.Value) []ssa.Value {
+	var out []ssa.Value
+	seen := map[*ssa.Phi]bool{}
+	var walk func(v ssa.Value)
+	walk = func(v ssa.Value) {
+		p, ok := core.StripConv(v).(*ssa.Phi)
+		if !ok {
+			return
+		}
+		if seen[p] {
+			return
+		}
+		seen[p] = true
+		for _, e := range p.Edges {
+			if k, isConst := core.ConstInt(e); isConst && k < 0 {
+				continue
+			}
+			if _, isPhi := core.StripConv(e).(*ssa.Phi); isPhi {
+				walk(e)
+				continue
+			}
+			out = append(out, e)
+		}
+	}
+	walk(v)
+	return out
+}
+
 // indexFromFreeSlotHelper: idx is the result of a private helper every
 // non-negative-constant return of which is guarded, inside the helper, by
 // handlers[result] == nil (a "find a free slot" helper).
-func (a *epAnchors) indexFromFreeSlotHelper(c *core.Ctx, idx ssa.Value) bool {
+func (a *epAnchors) indexFromFreeSlotHelper(c *core.Ctx, fn *ssa.Function, use ssa.Instruction, idx ssa.Value) bool {
+	return searchHelperIndex(c, fn, use, idx, func(h *ssa.Function, v ssa.Value, arg func(ssa.Value) ssa.Value) core.EdgeMatcher {
+		return a.freeSlotMatcher(v)
+	})
+}
+
+// searchHelperIndex: idx is the result of a private search helper: every value
+// it returns other than a negative "not found" constant is returned only where
+// the guard built by matcherFor for that value holds (directly, or through a
+// search variable that starts at the sentinel), and fn uses idx only where it
+// was tested not to be the sentinel.
+func searchHelperIndex(c *core.Ctx, fn *ssa.Function, use ssa.Instruction, idx ssa.Value, matcherFor0 func(h *ssa.Function, v ssa.Value, arg func(ssa.Value) ssa.Value) core.EdgeMatcher) bool {
 	call, _ := core.CallResult(core.Canon(idx))
 	if call == nil {
 		return false
@@ -1042,23 +1225,59 @@ func (a *epAnchors) indexFromFreeSlotHelper(c *core.Ctx, idx ssa.Value) bool {
 	if h == nil || !isPrivateHelper(c, h) || len(h.Blocks) == 0 {
 		return false
 	}
-	n := 0
+	// arg: a parameter of the helper seen as the argument the caller passed
+	arg := func(v ssa.Value) ssa.Value {
+		if p, ok := core.Canon(v).(*ssa.Parameter); ok && p.Parent() == h {
+			for i, hp := range h.Params {
+				if hp == p && i < len(call.Call.Args) {
+					return call.Call.Args[i]
+				}
+			}
+		}
+		return v
+	}
+	matcherFor := func(h *ssa.Function, v ssa.Value) core.EdgeMatcher { return matcherFor0(h, v, arg) }
+	n, sentinel := 0, false
+	// holds: at instruction at (of the helper) the guard for value v holds
+	var holds func(at ssa.Instruction, v ssa.Value, depth int) bool
+	holds = func(at ssa.Instruction, v ssa.Value, depth int) bool {
+		if k, isConst := core.ConstInt(v); isConst && k < 0 {
+			sentinel = true // "not found"
+			return true
+		}
+		if p, ok := core.StripConv(v).(*ssa.Phi); ok && depth < 4 && !core.Guarded(h, at, matcherFor(h, v)) {
+			// a search variable: each value it is given satisfies the guard where it is given
+			for k, e := range p.Edges {
+				pred := p.Block().Preds[k]
+				if len(pred.Instrs) == 0 || !holds(pred.Instrs[len(pred.Instrs)-1], e, depth+1) {
+					return false
+				}
+			}
+			return true
+		}
+		n++
+		return core.Guarded(h, at, matcherFor(h, v))
+	}
 	for _, ret := range core.Returns(h) {
 		if len(ret.Results) == 0 {
 			return false
 		}
-		rv := core.RetVal(ret, 0)
-		if k, isConst := core.ConstInt(rv); isConst && k < 0 {
-			continue // "no free slot"
-		}
-		n++
-		isSlot := func(v ssa.Value) bool {
-			i2, ok := a.slotLoadIndex(v)
-			return ok && core.SameValue(i2, rv)
-		}
-		if !core.Guarded(h, ret, core.Eq(isSlot, core.IsNilConst)) {
+		if !holds(ret, core.RetVal(ret, 0), 0) {
 			return false
 		}
 	}
-	return n > 0
+	if n == 0 {
+		return false
+	}
+	if sentinel {
+		// the caller uses the result only where it is not the sentinel
+		isIdx := func(v ssa.Value) bool { return core.SameValue(v, idx) }
+		if !core.Guarded(fn, use, core.AnyOf(core.LowerBound0(isIdx), core.Ne(isIdx, func(v ssa.Value) bool {
+			k, ok := core.ConstInt(v)
+			return ok && k < 0
+		}))) {
+			return false
+		}
+	}
+	return true
 }
